@@ -1,6 +1,6 @@
 (* C05 — Weighted graphs keep per-edge weights and the running total consistent.  Statements only; proofs in Totals.v / WeightedRefine.v.
    Weights are exact integers (units of 1/4 in the harness): this is the "exactly when representable" clause; rounding is not modelled. *)
-From BG Require Import Base DirectedModel DirectedProofs DirectedSpec UndirectedModel MultiModel WeightedModel MultiSpec Totals MultiRefine WeightedRefine.
+From BG Require Import Base DirectedModel DirectedProofs DirectedSpec UndirectedModel MultiModel WeightedModel MultiSpec Totals MultiRefine WeightedRefine UTotals UWeightedRefine.
 Local Open Scope Z_scope.
 
 (* DirectedWeightedGraph.  After ANY valid history (addEdge, setEdgeWeight on present and absent edges, removeEdge, removeSelfLoops,
@@ -35,8 +35,8 @@ Proof.
 Qed.
 Print Assumptions C05_spec_semantics.
 
-(* PARTIAL: the undirected half of the property, stated and NOT proved (correspondence + spec oracle only). *)
-Definition C05_undirected_full_statement : Prop := forall (n : nat) (ops : list wop),
+(* UndirectedWeightedGraph: the same statement, weights indexed by the unordered pair (fix expressions = model run, validity, spec run) *)
+Theorem C05_undirected_weighted_consistent : forall (n : nat) (ops : list wop),
   (fix valid a ops := match ops with [] => true | o :: t => valid_wop a o && valid (wspec_step true a o) t end) (s_init n) ops = true ->
   exists m, (fix run m ops := match ops with [] => (m, Done) | o :: t => match uw_step repaired true m o with (m1, Done) => run m1 t | r => r end end) (dm_init n) ops = (m, Done) /\
     let a := (fix srun a ops := match ops with [] => a | o :: t => srun (wspec_step true a o) t end) (s_init n) ops in
@@ -44,6 +44,8 @@ Definition C05_undirected_full_statement : Prop := forall (n : nat) (ops : list 
        u_has_edge (mg m) i j = Val (mhas true a i j) /\
        uw_get_weight m i j thr = (if mhas true a i j then Val (mval true a i j) else if thr then Raise InvalidArgument else Val 0)) /\
     enum (mg m) = Z.of_nat (length (se a)) /\ mtot m = ssum a.
+Proof. intros n ops Vd. exact (C05_undirected_run n ops Vd). Qed.
+Print Assumptions C05_undirected_weighted_consistent.
 
 (* the pinned commit: setEdgeWeight(2,1,w) on the undirected edge {1,2} left the weight unchanged and added w to the total *)
 Example C05_refuted_on_pinned :
@@ -53,3 +55,36 @@ Proof. vm_compute. auto. Qed.
 Example C05_valid_history_example :
   valid_whistory (s_init 3) [WAdd 0 1 (-3) false; WSet 0 1 7; WSet 2 2 0; WAdd 0 1 9 false; WRemoveVertex 0; WResize 4; WSet 3 1 2; WSelfLoops; WClear] = true.
 Proof. vm_compute. reflexivity. Qed.
+
+(* ---- weight matrix (the stored weight where there is an edge, 0 elsewhere; the loop assigns, so a self-loop weight appears once), and ALL observers
+   at once: the whole observation vector equals the one computed from the weight-function spec ---- *)
+From Coq Require Import List Arith ZArith.
+From BG Require Import Base DirectedModel DirectedProofs DirectedSpec DirectedRefine DirectedObs UndirectedModel UndirectedProofs UndirectedSpec UndirectedRefine UndirectedObs MultiModel WeightedModel MultiSpec Totals MultiRefine WeightedRefine UTotals UMultiRefine UWeightedRefine Instances UndirectedUsers MultiUsers WeightedUsers ObserveSpec ObserveSpecLabelled.
+Import ListNotations.
+Local Close Scope Z_scope.
+Theorem C05_directed_all_observers :
+  forall (n : nat) (ops : list wop),
+        valid_whistory (s_init n) ops = true ->
+        exists m : mgraph, dw_run (dm_init n) ops = (m, Done) /\ dw_observe repaired m = sobserve_w false (wspec_run (s_init n) ops).
+Proof. exact ObserveSpec.dw_observe_history. Qed.
+Print Assumptions C05_directed_all_observers.
+Theorem C05_undirected_all_observers :
+  forall (n : nat) (ops : list wop),
+        uw_valid_history (s_init n) ops = true ->
+        exists m : mgraph, uw_run (dm_init n) ops = (m, Done) /\ uw_observe repaired m = sobserve_w true (uwspec_run (s_init n) ops).
+Proof. exact ObserveSpec.uw_observe_history. Qed.
+Print Assumptions C05_undirected_all_observers.
+Theorem C05_weight_matrix :
+  forall m : mgraph,
+        TInv m ->
+        weight_matrix (size (mg m)) (mg m) (fun i j : nat => dw_get_weight m i j true) =
+        Val (map (fun i : nat => map (fun j : nat => dw_cell m i j) (seq 0 (size (mg m)))) (seq 0 (size (mg m)))).
+Proof. exact WeightedUsers.dw_weight_matrix_val. Qed.
+Print Assumptions C05_weight_matrix.
+Theorem C05_undirected_weight_matrix :
+  forall m : mgraph,
+        UTInv m ->
+        weight_matrix (size (mg m)) (mg m) (fun i j : nat => uw_get_weight m i j true) =
+        Val (map (fun i : nat => map (fun j : nat => uw_cell m i j) (seq 0 (size (mg m)))) (seq 0 (size (mg m)))).
+Proof. exact WeightedUsers.uw_weight_matrix_val. Qed.
+Print Assumptions C05_undirected_weight_matrix.
